@@ -72,6 +72,11 @@ def find_arcs(v, seen=None, out=None):
         seen.add(id(v))
         if "arc_inner" in v.attrs and isinstance(v.attrs["arc_inner"], Obj) and "RequestEnd" in v.attrs["arc_inner"].ty:
             out.append(v)
+            return out
+        if v.ty.endswith("connection::RequestEnd") or v.ty == "RequestEnd":
+            # a guard held by value (not behind an Arc)
+            out.append(v)
+            return out
         for c in v.fields.values():
             find_arcs(c.v, seen, out)
         for a in v.attrs.values():
@@ -113,7 +118,7 @@ def part_a(L, log):
         arcs = find_arcs(ret)
         good = []
         for a in arcs:
-            re_ = a.attrs["arc_inner"]
+            re_ = a.attrs.get("arc_inner", a)
             ch = E.get_field(re_, (None, 0))
             sidv = E.get_field(re_, (None, 1), (None, 0))
             if isinstance(ch, Obj) and ch.attrs.get("channel") == "request_end" and sidv is not None and not ex.feasible(s, sidv != s.world["stream_id"]):
@@ -161,7 +166,7 @@ def part_c(L, log, resolver_triple, samples):
         (r"FrameStream as SendStream::send_id$", c_send_id),
         (r"^connection::RequestStream::new$|^ResolvedRequest::new$", c_ctor),
         (r"^drop<.*RequestResolver.*>$", drop_effect("resolver_dropped")),
-        (r"^drop<.*Arc<.*RequestEnd>.*>$|^drop<Arc>$", drop_effect("arc_dropped")),
+        (r"^drop<.*Arc<.*RequestEnd>.*>$|^drop<Arc>$|^drop<.*connection::RequestEnd>$|^drop<RequestEnd>$", drop_effect("arc_dropped")),
     ] + c03.contracts(1)
     ex = E.make_executor(L, c03.INLINE, con, max_unroll=3)
     viols = []
@@ -358,6 +363,12 @@ def check(L, tier, log, samples):
     queries += exe.queries
     states += ne
     wit.update({"E." + k: v for k, v in we.items()})
+    exf, vf, nf, wf = part_f(L, log)
+    viols += vf
+    fns |= exf.functions_used
+    queries += exf.queries
+    states += nf
+    wit.update({"F." + k: v for k, v in wf.items()})
     log(f"A resolver {na} path(s); B RequestEnd::drop {nb}; C accept_with_frame {nc} paths; D completion {nd} paths; E accept gate {ne} paths")
     stats = {"states": states, "transitions": queries, "queries": queries,
              "solver_s": round(exa.solver_s + exb.solver_s + exc.solver_s + exd.solver_s + exe.solver_s, 2),
@@ -365,7 +376,66 @@ def check(L, tier, log, samples):
     return viols, stats
 
 
+def part_f(L, log):
+    """server RequestStream::split: both halves must hold the SAME RequestEnd (one shared guard, dropped with the last half):
+    a copied guard would report the request's end when the first half is dropped."""
+    guards = []
+
+    def c_arc_clone(ex, st, key, argv, dest_ty, raw):
+        def ap(ex, st, a):
+            src = C.deref(a[0])
+            o = Obj(dest_ty)
+            o.attrs["guard"] = src.attrs.get("guard")   # another handle on the same guard
+            return o
+        return [Case(None, ap)]
+
+    def c_guard_copy(ex, st, key, argv, dest_ty, raw):
+        def ap(ex, st, a):
+            o = Obj(dest_ty)
+            o.attrs["guard"] = "copy%d_of_%s" % (len(st.world.setdefault("copies", [])), C.deref(a[0]).attrs.get("guard"))
+            st.world["copies"].append(o.attrs["guard"])
+            return o
+        return [Case(None, ap)]
+
+    def c_inner_split(ex, st, key, argv, dest_ty, raw):
+        def ap(ex, st, a):
+            t = Obj(dest_ty)
+            t.fields[(None, 0)] = Cell(Obj("connection::RequestStream<send half>"))
+            t.fields[(None, 1)] = Cell(Obj("connection::RequestStream<recv half>"))
+            return t
+        return [Case(None, ap)]
+    con = [(r"^Arc as Clone::clone$", c_arc_clone), (r"^RequestEnd as Clone::clone$", c_guard_copy),
+           (r"^connection::RequestStream::split$", c_inner_split)] + c08.base_contracts()
+    ex = E.make_executor(L, [], con)
+    st = State()
+    rs = Obj("server::stream::RequestStream<S, B>")
+    g = Obj("request end guard")
+    g.attrs["guard"] = "the_request_end"
+    rs.fields[(None, 1)] = Cell(g)
+    E.call(ex, st, r"^server::stream::<impl[^>]*>::split$", [rs])
+    outs = E.collect(ex, st)
+    viols = []
+    wit = {"split_executed": False}
+    for s, ret in outs:
+        if ret == ("panic",):
+            continue
+        wit["split_executed"] = True
+        held = []
+        for i in (0, 1):
+            half = E.get_field(ret, (None, i))
+            gd = E.get_field(half, (None, 1)) if half is not None else None
+            held.append(gd.attrs.get("guard") if isinstance(gd, Obj) else None)
+        if held != ["the_request_end", "the_request_end"]:
+            viols.append({"key": "c09.split.halves_do_not_share_one_request_end",
+                          "what": "after split() the two halves do not share the request's single RequestEnd: the half dropped first reports the end of a "
+                                  "request whose other half is still in use, so accept() can report 'no more requests' while a request is in progress",
+                          "model": {"guards_held": held}})
+    return ex, viols, len(outs), wit
+
+
 def replay_args(v):
     if v["key"] in ("c09.resolver.owns_no_request_end", "c09.request_end.not_reported_when_request_is_refused"):
         return ("c09_refused_request_blocks_shutdown", [])
+    if v["key"] in ("c09.split.halves_do_not_share_one_request_end", "c09.request_end.accepted_request_holds_wrong_number_of_ends"):
+        return ("c09_split_halves", [])
     return None
